@@ -14,8 +14,8 @@ import ast
 from .. import astutil as A
 from ..fa import FA
 from ..loader import AnalysisError
-from .c15 import (FRAME, absent_edges, alias_text, batch_seqs, body_starts, call_batch_dispatch, expand_alias, heads_of,
-                  is_calling_frame, not_edges, origins, position_loops)
+from .c15 import (FRAME, absent_edges, alias_text, batch_seqs, body_starts, call_batch_dispatch, enclosing_position, expand_alias, heads_of,
+                  is_calling_frame, not_edges, origins, position_loops, result_loops, result_name)
 
 RL = "runner_local"
 INV_LIST = ("invocation_metadata", "invocations")
@@ -79,7 +79,16 @@ def set_updates(fa):
         if isinstance(s.op, ast.BitOr) and fa.nodes(s):
             x = _single(s.value)
             out.append((fa.nodes(s), s.target, "elem" if x is not None else "union", x if x is not None else s.value))
-    return out
+    # s |= a | b  ==  s |= a; s |= b
+    flat = []
+    for (ids, r, kind, x) in out:
+        parts = [x]
+        while kind == "union" and any(isinstance(p, ast.BinOp) and isinstance(p.op, ast.BitOr) for p in parts):
+            parts = [q for p in parts for q in ((p.left, p.right) if isinstance(p, ast.BinOp) and isinstance(p.op, ast.BitOr) else (p,))]
+        for p in parts:
+            y = _single(p) if kind == "union" else None
+            flat.append((ids, r, "elem" if y is not None else kind, y if y is not None else p))
+    return flat
 
 
 def prop_sites(fa):
@@ -156,10 +165,12 @@ def _escapes(fa, starts, sites, extra_removed, edge_ok, targets, include_start=T
 def _r1_batch(ck, R1):
     br = FA(ck, RL + ".LocalRunnerBackend.batch_run")
     seqs = batch_seqs(br)
-    loops = [(l, p) for (l, p) in position_loops(br, seqs) if br.enclosing(l, ast.For) is None]
-    ck.need(loops, "batch_run: no loop over the input positions found")
+    ploops = position_loops(br, seqs)
     sites = prop_sites(br)
     runs = [c for c in br.calls("memento_run_local") if br.nodes(c)]
+    # the element loop(s): position loops that fill the result list, run an element or propagate one
+    loops = result_loops(br, ploops, result_name(br), also=runs + [s.anchor for s in sites])
+    ck.need(loops, "batch_run: no loop over the input positions found")
     no_caller = absent_edges(br, is_calling_frame(br))
     edge_ok = not_edges(no_caller)
     run_nodes = set(br.nodes_all(runs))
@@ -182,8 +193,11 @@ def _r1_batch(ck, R1):
         okc = _is_frame_memento(br, s.caller, s.at) and "call:get_calling_frame" in br.deps(s.caller, s.at)
         okr = False
         if s.result is not None:
+            # the element's own memento out of the bulk answer
+            home = enclosing_position(br, ploops, s.anchor)
             dr = br.deps(s.result, s.at)
-            okr = "op:subscript" in dr and any(d.startswith("call:get_mementos") for d in dr)
+            okr = (home is not None and home[1].elem_role(seqs, s.result, s.at) == "bulk") \
+                or ("op:subscript" in dr and any(d.startswith("call:get_mementos") for d in dr))
         oki = all(s.parts)
         ck.ob(R1, br.key(s.anchor, "args"), okc and okr and oki, "propagates the stored memento into the calling frame's memento" if okc and okr and oki else
               "batch pre-check propagates the wrong mementos (caller=%s, result=%s)" % (A.norm(s.caller), A.norm(s.result)) if oki else
